@@ -384,8 +384,15 @@ def unwrap(ty, v):
     raise Unsupported('unwrap %r' % ty)
 
 
+REC_FIELDS = {}   # class key -> {field: type string}; filled by contract modules
+
+
 def fresh(ty, base='x'):
     n = ty.name
+    if n == 'rec':
+        cls = ty.args[0].name
+        return VRec(cls, {f: fresh(parse_ty(t), base + '_' + f.strip('_'))
+                          for f, t in REC_FIELDS[cls].items()})
     if n == 'int':
         return VInt(z3.Int(fresh_name(base)))
     if n == 'bool':
@@ -445,6 +452,8 @@ def ty_of(v):
         return Ty('map', [v.kty, v.vty])
     if isinstance(v, VSlice):
         return Ty('slice')
+    if isinstance(v, VRec):
+        return Ty('rec', [Ty(v.cls)])
     raise Unsupported('ty_of %r' % (v,))
 
 
